@@ -228,14 +228,18 @@ async fn run_cli(tok: &[&str]) -> String {
         .arg("-accept")
         .arg(format!("127.0.0.1:{port}"))
         .arg("-cert")
-        .arg(cert(server_cert))
+        .arg(cert(server_cert.split('+').next().unwrap()))
         .arg("-key")
-        .arg(key(server_cert))
+        .arg(key(server_cert.split('+').next().unwrap()))
         .arg("-CAfile")
         .arg(if mode_ca { cert("ca1") } else { cert("ss_a") })
         .arg("-Verify")
         .arg("1")
         .arg("-brief");
+    // `a+b`: the server sends certificate b after its own certificate a
+    if let Some(extra) = server_cert.split('+').nth(1) {
+        cmd2.arg("-cert_chain").arg(cert(extra));
+    }
     for f in version_flags(tok[4]) {
         cmd2.arg(f);
     }
